@@ -118,7 +118,7 @@ def cases(tier, seed):  # noqa: ARG001
     for w in WITNESSES:
         yield dict(w)
     reps = set(G.representative_families())
-    per_rep, per_other = (5, 1) if tier == "quick" else (30, 16)
+    per_rep, per_other = (12, 3) if tier == "quick" else (60, 30)
     for fam in G.families():
         draws = per_rep if fam in reps else per_other
         for info in _protected(fam):
